@@ -46,8 +46,14 @@ func (t Threshold) IsValid([]byte) error {
 	return nil
 }
 
+// Threshold returns the least number of votes, which is at least
+// quorum*t/100. Threshold has one decimal place, so the count is evaluated in
+// integers; float64 rounding must not change it (e.g. 100 nodes under 55.0
+// needs 55, not 56).
 func (t Threshold) Threshold(quorum uint) uint {
-	return uint(math.Ceil(float64(quorum) * (t / MaxThreshold).Float64()))
+	t10 := uint64(math.Round(t.Float64() * 10)) //nolint:mnd //...
+
+	return uint((uint64(quorum)*t10 + 999) / 1000) //nolint:mnd //...
 }
 
 func (t Threshold) VoteResult(quorum uint, set []string) (result VoteResult, key string) {
